@@ -65,21 +65,31 @@ CfgOK(c) ==
 (* asset is active; a period partly outside the horizon / window is        *)
 (* prorated by the covered duration:  sum >= vol * covered / (e - s).      *)
 (***************************************************************************)
-TakeCovers(c, a, tk, s) == Active(c, a, s) /\ tk.s <= c.tp[s] /\ c.tp[s] < tk.e
-CoveredSteps(c, a, tk)  == { s \in 1..c.T : TakeCovers(c, a, tk, s) }
-CoveredTicks(c, a, tk)  == SetSum([s \in 1..c.T |-> c.dt[s]], CoveredSteps(c, a, tk))
-LastCovered(c, a, tk)   == IF CoveredSteps(c, a, tk) = {} THEN 0 ELSE SetMax(CoveredSteps(c, a, tk))
+\* Split optimisation (c.split = set of steps that START a new interval; {} when the horizon is optimised
+\* in one piece): every interval is a problem of its own -- storages return to their start level at each
+\* interval start and must reach the end level at each interval end (see BlockFirst/BlockLast), and a take
+\* period is imposed per interval, prorated by the duration covered inside that interval.
+IntervalStart(c, s) == SetMax({1} \cup { b \in c.split : b <= s })
+SameInterval(c, s1, s2) == IntervalStart(c, s1) = IntervalStart(c, s2)
 
-\* new cumulated volumes of all take periods of asset a after taking q in step s
+TakeCovers(c, a, tk, s) == Active(c, a, s) /\ tk.s <= c.tp[s] /\ c.tp[s] < tk.e
+CoveredSteps(c, a, tk, s0) == { s \in 1..c.T : TakeCovers(c, a, tk, s) /\ SameInterval(c, s, s0) }   \* in the interval of s0
+CoveredTicks(c, a, tk, s0) == SetSum([s \in 1..c.T |-> c.dt[s]], CoveredSteps(c, a, tk, s0))
+LastCovered(c, a, tk, s0)  == IF CoveredSteps(c, a, tk, s0) = {} THEN 0 ELSE SetMax(CoveredSteps(c, a, tk, s0))
+FirstCovered(c, a, tk, s0) == IF CoveredSteps(c, a, tk, s0) = {} THEN 0 ELSE SetMin(CoveredSteps(c, a, tk, s0))
+
+\* new cumulated volumes (per interval) of all take periods of asset a after taking q in step s
 TookNew(c, a, s, q, took) ==
-  [k \in 1..Len(a.takes) |-> IF TakeCovers(c, a, a.takes[k], s) THEN took[k] + q ELSE took[k]]
+  [k \in 1..Len(a.takes) |->
+     IF ~TakeCovers(c, a, a.takes[k], s) THEN took[k]
+     ELSE IF s = FirstCovered(c, a, a.takes[k], s) THEN q ELSE took[k] + q]
 
 TakeChkOne(c, K, tol, a, tk, s, tooknew) ==
-  IF s # LastCovered(c, a, tk) THEN ""
+  IF s # LastCovered(c, a, tk, s) THEN ""
   ELSE LET w   == tk.e - tk.s
            lhs == tooknew * w
-           rhs == tk.vol * CoveredTicks(c, a, tk) * K
-           tt  == tol * w * Cardinality(CoveredSteps(c, a, tk))
+           rhs == tk.vol * CoveredTicks(c, a, tk, s) * K
+           tt  == tol * w * Cardinality(CoveredSteps(c, a, tk, s))
        IN IF tk.sense = "min" /\ lhs < rhs - tt THEN "min_take"
           ELSE IF tk.sense = "max" /\ lhs > rhs + tt THEN "max_take"
           ELSE ""
@@ -190,8 +200,8 @@ TransportStep(c, K, tol, a, s, legs, st) ==
 \* level' = level + inflow * dt + eff * (-qi) - qo      (numerator over eff[2])
 \* a.blocks : set of steps that START a new time block (level returns to start level there,
 \*            and must equal the end level on the step before)
-BlockFirst(c, a, s) == s = FirstActive(a) \/ s \in a.blocks
-BlockLast(c, a, s)  == s = LastActive(c, a) \/ (s + 1) \in a.blocks
+BlockFirst(c, a, s) == s = FirstActive(a) \/ s \in a.blocks \/ s \in c.split
+BlockLast(c, a, s)  == s = LastActive(c, a) \/ (s + 1) \in a.blocks \/ (s + 1) \in c.split
 BlockStartStep(c, a, s) == SetMax({ b \in FirstActive(a)..s : BlockFirst(c, a, b) })
 
 StorageNew(c, K, a, s, qi, qo, cur) ==
